@@ -383,8 +383,13 @@ def prov_filter(ctx):
     det = T.sx_show(e)
     pn = [p_["pat"]["name"].split("#")[0] for p_ in b["params"][1:2] if p_.get("pat", {}).get("k") == "Bind"]
     pn = pn[0] if pn else "size_needed"
+    fnd = None
     if e[0] == "call" and e[1].endswith("Option::copied"):
         fnd = e[2][0]
+    elif e[0] == "call" and e[1] == "core::iter::Iterator::find" and e[2][0][0] == "call" and e[2][0][1].endswith("Iterator::copied"):
+        # .iter().copied().find(p) - the same element, copied before instead of after the search
+        fnd = ("call", e[1], (e[2][0][2][0], e[2][1]))
+    if fnd is not None:
         if fnd[0] == "call" and fnd[1] == "core::iter::Iterator::find":
             it, cl = fnd[2]
             if it[0] == "call" and it[1].endswith("BTreeSet::iter") and _is_symbols_of_self(it[2][0]) and cl[0] == "closure":
@@ -430,6 +435,23 @@ def prov_filter(ctx):
     if ok:
         ce, _ = _closure_sx(f, mp[0][2][1][1], r)
         ok = ce[0] == "field" and ce[2] == "max" and ce[1][0] == "call" and ce[1][1] == SS + "::capacity"
+    if not ok:
+        # running maximum: let mut m = 0; for s in &self.symbols { if cap(s).max >= m (or >) { m = cap(s).max } } m
+        ms = T.stmts(b["body"], {})
+        if len(ms) == 3 and ms[0][0] == "let" and ms[0][2] and ms[0][3] == ("lit", 0) and ms[1][0] == "for" and ms[2][0] == "expr" and ms[2][1][:2] == ("var", ms[0][1].split("#")[0]):
+            acc = ms[0][1].split("#")[0]
+            it = ms[1][2]
+            while it[0] == "call" and (it[1].endswith("into_iter") or it[1].endswith("BTreeSet::iter")):
+                it = it[2][0]
+            ev = ms[1][1][0].split("#")[0] if len(ms[1][1]) == 1 else None
+
+            def is_cap(x):
+                return x[0] == "field" and x[2] == "max" and x[1][0] == "call" and x[1][1] == SS + "::capacity" and x[1][2][0][:2] == ("var", ev)
+            body = [st for st in ms[1][3] if st[0] != "let"]
+            if _is_symbols_of_self(it) and len(body) == 1 and body[0][0] == "if" and not body[0][3] and len(body[0][2]) == 1:
+                c, st = body[0][1], body[0][2][0]
+                cmp_ok = c[0] == "bin" and ((c[1] in ("Ge", "Gt") and is_cap(c[2]) and c[3][:2] == ("var", acc)) or (c[1] in ("Le", "Lt") and is_cap(c[3]) and c[2][:2] == ("var", acc)))
+                ok = cmp_ok and st[0] == "assign" and st[1][:2] == ("var", acc) and is_cap(st[2])
     ob("max_capacity", ok, "max_capacity() = maximum of capacity().max over the list", b, T.sx_show(e))
     # From<SymbolSize>, From<[SymbolSize; N]>, Extend: delegate to the whitelist constructor / the set
     for name in list(f.thir):
